@@ -65,9 +65,16 @@ def main(argv: List[str]) -> int:
                 tid += 1
                 items[tid] = {'tid': tid, 'route': route, 'doc': dm['doc'], 'model': dm['model'], 'fseed': seed, 'pinned': {},
                               'seed': seed, 'variant': with_props}
+    # the exhaustive per-element feature products that C01 parses (GenProduct.tla) are rendered and re-parsed as well
+    pm = docs.product_models(rep)
+    for pid, dm in pm:
+        for route in ('parsed', 'built'):
+            tid += 1
+            items[tid] = {'tid': tid, 'route': route, 'doc': dm['doc'], 'model': dm['model'], 'fseed': None, 'pinned': {},
+                          'seed': pid, 'variant': 'product'}
+    rep.notes['product_models'] = len(pm)
     res = render.run_items(list(items.values()), rep, 'C02')
     judge('C02', ['content', 'fixpoint'], rep, res, items, lambda it: docs.doc_features(it['doc']) > 0)
-    rep.notes['models'] = len(items) // 3
     t0 = next(iter(items))
     rep.samples.append({'seed': items[t0]['seed'], 'route': items[t0]['route'], 'rendered': (res[t0][1].get('_text1') or '')[:1500],
                         'verdict': res[t0][0]})
